@@ -342,12 +342,17 @@ def roundtrip(tier, seed):
     probes = [("any mesh (uniform 2-quad patch suffices)", small["quads2x1@-20,-10"]),
               ("mixed-size meshes (mixed_quad_tri_isolated suffices)", small["mixed_quad_tri_isolated"]),
               ("closed meshes (cube suffices)", mg.cube())]
+    # a partial mesh whose node arrays start with nodes no face uses: the smallest index in the face table is 2, not 0
+    base_m = small["mixed_quad_tri_isolated"]
+    orphan = mg.mk("leading_unused_nodes", [-40.0, -30.0] + list(base_m["lon"]), [50.0, 50.0] + list(base_m["lat"]),
+                   [[v + 2 for v in row if v != mg.FILL] for row in base_m["faces"]])
+    meshes = meshes + [orphan]
     names = list(AXES)
     combos = [dict(zip(names, v)) for v in itertools.product(*AXES.values())]
     base = {n: AXES[n][0] for n in names}
     singles = [c for c in combos if sum(c[n] != base[n] for n in names) <= 1]
     per_mesh = 2 if tier == "quick" else 12
-    full_for = {"quads2x1@-20,-10", "mixed_quad_tri_isolated", "cube"} if tier == "quick" else {m["name"] for m in meshes[:22]}
+    full_for = {"quads2x1@-20,-10", "mixed_quad_tri_isolated", "cube"} if tier == "quick" else ({m["name"] for m in meshes[:22]} | {"leading_unused_nodes"})
     _MEMO.clear()
     failures, samples = [], []
     cases, skipped = 0, 0
